@@ -116,3 +116,13 @@ def gen_drift(ctx, nmax):
     drift = [fw.describe(t) for t, v in zip(traces, verdicts) if any(c == "GEN.drift" for c, _, _ in v["viol"])]
     return {"model": "GenBinomialCore (Multistage, all splits and trajectories; Revolve, 3 cost vectors)",
             "traces": len(traces), "drifting": len(drift), "examples": drift[:5]}
+
+
+def gen_drift_mixed(ctx, nmax):
+    """Implementation traces against the mixed generator model (diagnostic only)."""
+    cfgs = boxes.mixed(nmax)
+    traces = record.record_many(cfgs)
+    verdicts = fw.validate(ctx, traces, module="TraceGenMixed")
+    drift = [fw.describe(t) for t, v in zip(traces, verdicts) if any(c == "GEN.drift" for c, _, _ in v["viol"])]
+    return {"model": "GenMixedCore (every optimal planner option allowed)", "traces": len(traces),
+            "drifting": len(drift), "examples": drift[:5]}
